@@ -60,15 +60,22 @@ Proof.
   cbn [List.length] in H. exact H.
 Qed.
 
-Lemma bom_at_go_inside : forall buf j, bom_at_go buf j = true -> j + 3 <= List.length buf.
+Lemma bom_at_runewise_old_inside : forall buf j,
+  bom_at_runewise_old buf j = true -> j + 3 <= List.length buf.
 Proof.
-  intros buf j H. unfold bom_at_go in H. apply andb_true_iff in H. destruct H as [H _].
+  intros buf j H. unfold bom_at_runewise_old in H. apply andb_true_iff in H. destruct H as [H _].
   apply Nat.leb_le in H. exact H.
 Qed.
 
 (** the only fact about the byte-order-mark test that the totality proofs use *)
 Lemma bom_at_inside : forall buf j, bom_at buf j = true -> j + 3 <= List.length buf.
-Proof. exact bom_at_go_inside. Qed.
+Proof. exact bom_at_bytewise_inside. Qed.
+
+(** the rune-wise test of commit 0061363 accepted three bytes that are not a byte order mark:
+    quote, U+FF71 (EF BD B1), quote *)
+Theorem bom_test_runewise_old_refuted :
+  exists buf j, bom_at_runewise_old buf j = true /\ is_string_at buf j bom = false.
+Proof. exists [34; 239; 189; 177; 34], 1. split; reflexivity. Qed.
 
 (* ------------------------------------------------------------------ scanSpaceToken *)
 
